@@ -1,5 +1,5 @@
 #!/usr/bin/env python3
-"""gen_c20.py <bdir with config.h> <lean Gen dir> <aux dir> <exported-symbols file>
+"""gen_c20.py <bdir with config.h> <lean Gen dir> <aux dir> <exported-symbols file> [<file listing the sources the library was built from>]
 
 Runs the C20 extractors on VERIF_REPO (default /repo), writes
   <Gen>/C20.lean   chunked tables for the kernel (names as Nat codes, sorted)
@@ -50,7 +50,7 @@ def tcode(t):
     return X.ty_code(*t) if t[0] in X.ABI else None
 
 
-def main(bdir, gen_dir, aux, exported_file):
+def main(bdir, gen_dir, aux, exported_file, built_file=None):
     repo = os.environ.get('VERIF_REPO', '/repo')
     os.makedirs(aux, exist_ok=True)
     cc = X.c_constants(repo, bdir, aux)
@@ -78,7 +78,9 @@ def main(bdir, gen_dir, aux, exported_file):
 
     consts = {}
     consts['fortran'] = X.fortran_constants(repo)
-    consts['pascal'] = X.pascal_constants(repo)
+    cst = X.c_structs(repo, bdir, aux)
+    pu = X.pascal_unit(repo, cst)
+    consts['pascal'] = X.pascal_constants(repo) + pu['consts']
     cy_consts, cy_protos = X.cython_extract(repo, cc)
     consts['cython'] = cy_consts
     consts['java'], java_dynamic = X.java_constants(repo)
@@ -88,6 +90,18 @@ def main(bdir, gen_dir, aux, exported_file):
     swig = X.swig_refs(repo, cp, cc)
     cpp = X.cpp_refs(repo, cp, cc)
     vers = X.versions(repo)
+    fwr = X.fortran_wrappers(repo)
+    bstructs = dict(fortran=X.fortran_structs(repo, cst), pascal=pu['structs'], cython=X.cython_structs(repo, cst))
+    idlf = X.idl_functions(repo, [n for n in cp if cp[n].file != '<libc>'])
+    libtool = X.libtool_versions(repo)
+    swig_inv = X.swig_invocations(repo)
+    bdef = X.library_build_definition(repo)
+    built = sorted(set(l.strip() for l in open(built_file) if l.strip())) if built_file else None
+    cup = {}
+    for n in cp:
+        if n.upper() in cup: raise TieError(cp[n].file, cp[n].line, n, 'two C functions that differ only in case: case-insensitive bindings cannot tell them apart')
+        cup[n.upper()] = n
+    def cspell(n): return cup.get(n.upper(), n)
     if 'xraylib.h' not in swig['includes']: raise TieError('src/xraylib.i', 0, '', 'the SWIG interface no longer %includes xraylib.h (extractor assumes constants and prototypes come from the C headers)')
     if 'xraylib.h' not in cpp['includes']: raise TieError('cplusplus/xraylib++.h', 0, '', 'the C++ header no longer includes xraylib.h')
     exported = sorted(set(l.strip() for l in open(exported_file) if l.strip()))
@@ -130,7 +144,16 @@ def main(bdir, gen_dir, aux, exported_file):
         names = {k for k, _ in tables[b]}
         publishes[b] = [f for f in X.FAMILIES if any(n in names for n in fam[f])]
         kn = []
-        for f in publishes[b]:
+        for f in X.FAMILIES:
+            if f not in publishes[b]:
+                # "exposed completely" fails for the family as a whole: one entry, not one per member
+                key = '%s family %s' % (FILE_OF[b], f)
+                report['diffs'].append(dict(kind='family', binding=b, family=f, name=f, file=FILE_OF[b], line=0, found='none of the %d %s constants is published' % (len(fam[f]), f),
+                                            expected='%s … %s (%s)' % (fam[f][0], fam[f][-1], cc[fam[f][0]].file), key=key,
+                                            what='%s publishes none of the %d constants of the %s family (%s … %s of %s)' % (FILE_OF[b], len(fam[f]), f, fam[f][0], fam[f][-1], cc[fam[f][0]].file),
+                                            known=key in fkeys))
+                if key in fkeys: kn += fam[f]
+                continue
             for n in fam[f]:
                 if n not in names:
                     key = '%s family %s' % (FILE_OF[b], n)
@@ -179,6 +202,124 @@ def main(bdir, gen_dir, aux, exported_file):
                 key = '%s ref %s' % (f, r['text'])
                 report['diffs'].append(dict(kind='reference', binding=who, name=r['text'], file=f, line=r['line'], found='%s %s' % (r['kind'], r['text']), expected=r['need'], key=key,
                                             what='%s:%d: %s `%s` names nothing in the C headers (%s)' % (f, r['line'], r['kind'], r['text'], r['need']), known=key in fkeys))
+    # ---- wrapper name vs bound C symbol (Fortran, Pascal, IDL glue) ------------------------------------------
+    def is_helper(c): return (c in cp and cp[c].ret[0] == 'void') or c in LIBC
+    wr = {}
+    def wrapper_set(lang, wrappers, direct):
+        calls = []; named = []; native = []; dpairs = []
+        for w in wrappers:
+            me = cspell(w.name)
+            for c in w.calls: calls.append((me, c))
+            bad = [c for c in w.calls if c != me and not is_helper(c)]
+            if me in cp and cp[me].file != '<libc>':
+                named.append(me)
+                if not w.binds: native.append(me)
+                elif me not in w.calls and not bad: bad = list(w.calls)
+            if bad:
+                key = '%s wrapper %s' % (w.file, w.name)
+                report['diffs'].append(dict(kind='wrapper-binding', binding=lang, name=w.name, file=w.file, line=w.line, found='binds and calls %s' % ', '.join(w.calls), expected='binds and calls %s (besides void helper functions)' % me, key=key,
+                                            what='%s:%d: the wrapper published as %s binds and calls the C function(s) %s' % (w.file, w.line, w.name, ', '.join(bad)), known=key in fkeys))
+        for w in direct:
+            me = cspell(w.name); c = w.binds[0][1]; dpairs.append((me, c))
+            if me != c:
+                key = '%s wrapper %s' % (w.file, w.name)
+                report['diffs'].append(dict(kind='wrapper-binding', binding=lang, name=w.name, file=w.file, line=w.line, found="bound to the C symbol '%s'" % c, expected="bound to the C symbol '%s'" % me, key=key,
+                                            what="%s:%d: the foreign declaration published as %s is bound to the C symbol '%s'" % (w.file, w.line, w.name, c), known=key in fkeys))
+        wr[lang] = dict(calls=sorted(set(calls), key=lambda x: (nat_of(x[0]), nat_of(x[1]))), named=sorted(set(named), key=nat_of), native=sorted(set(native), key=nat_of),
+                        direct=sorted(set(dpairs), key=lambda x: (nat_of(x[0]), nat_of(x[1]))), wrappers=[w.js() for w in wrappers], direct_decls=[w.js() for w in direct])
+    wrapper_set('fortran', [w for w in fwr if w.kind == 'wrapper'], [w for w in fwr if w.kind == 'direct'])
+    wrapper_set('pascal', pu['wrappers'], pu['direct'])
+    wrapper_set('idl', idlf['glue'], [])
+    # ---- Pascal: the public (non-external) declarations against the C prototypes' visible signature; iface file vs definitions
+    HIDDEN = {('ptr', 'xrl_error*'), ('ptr', 'int'), ('ptr', 'Crystal_Array')}
+    def vis(c): return [a for a in c.args if a not in HIDDEN]
+    for p_ in pu['public']:
+        p_.cname = cspell(p_.name)
+        c = cp.get(p_.cname)
+        ok = c is not None and len(p_.args) == len(vis(c)) and agree(p_.ret, c.ret) and all(agree(x, y) for x, y in zip(p_.args, vis(c)))
+        if not ok:
+            key = '%s decl %s' % (p_.file, p_.name)
+            exp = 'no such function in the C headers' if c is None else '%s  (%s:%d)' % (c.text, c.file, c.line)
+            report['diffs'].append(dict(kind='public-signature', binding='pascal', name=p_.name, file=p_.file, line=p_.line, found=p_.text, expected=exp, key=key,
+                                        what='%s:%d declares %s with result/arguments %s; the C function shows its caller %s' % (p_.file, p_.line, p_.name, fmt_types(p_), 'nothing' if c is None else fmt_types(X.Proto(c.name, c.ret, vis(c), [], '', c.file, c.line))),
+                                        known=key in fkeys))
+    iface = sorted(pu['iface'], key=lambda x: nat_of(x[0])); impl = sorted(pu['impl'], key=lambda x: nat_of(x[0]))
+    di = {n: (t, l) for n, t, l in iface}; dm = {n: (t, l) for n, t, l in impl}
+    for n in sorted(set(di) | set(dm)):
+        if di.get(n, (None,))[0] != dm.get(n, (None,))[0]:
+            key = 'pascal/xraylib_iface.pas decl %s' % n
+            report['diffs'].append(dict(kind='iface-impl', binding='pascal', name=n, file='pascal/xraylib_iface.pas', line=di.get(n, (0, 0))[1], found=di.get(n, ('not declared',))[0], expected=dm.get(n, ('not defined in pascal/xraylib_impl.pas',))[0], key=key,
+                                        what='pascal/xraylib_iface.pas declares %s, pascal/xraylib_impl.pas defines %s' % (di.get(n, ('nothing',))[0], dm.get(n, ('nothing',))[0]), known=key in fkeys))
+    # ---- IDL: the two hand-written declaration sets against the C prototypes and against each other
+    for src_, ents in (('idl/libxrlidl.dlm', idlf['dlm']), ('idl/xraylib_idl.c', idlf['sysfun'])):
+        for e in ents:
+            c = cp.get(e['name'])
+            ok = c is not None and c.file != '<libc>' and e['min'] == e['max'] == len(vis(c)) and (e['kind'] == 'PROCEDURE' or c.ret[0] != 'void')
+            if not ok:
+                key = '%s routine %s' % (src_, e['idl'])
+                exp = 'a function of the C headers' if c is None or c.file == '<libc>' else '%s with %d arguments: %s (%s:%d)' % ('PROCEDURE or FUNCTION' if c.ret[0] != 'void' else 'PROCEDURE', len(vis(c)), c.text, c.file, c.line)
+                report['diffs'].append(dict(kind='idl-routine', binding='idl', name=e['idl'], file=src_, line=e['line'], found=e['text'], expected=exp, key=key,
+                                            what='%s:%d declares %s %s with %d..%d arguments; C has %s' % (src_, e['line'], e['kind'], e['idl'], e['min'], e['max'], 'no such function' if c is None else '%s, visible arguments %d' % (c.text, len(vis(c)))),
+                                            known=key in fkeys))
+    rd = {e['idl']: e for e in idlf['dlm']}; rs = {e['idl']: e for e in idlf['sysfun']}
+    if len(rd) != len(idlf['dlm']) or len(rs) != len(idlf['sysfun']):
+        raise TieError('idl/libxrlidl.dlm', 0, '', 'an IDL routine is declared twice in one declaration set')
+    for n in sorted(set(rd) | set(rs)):
+        a, b_ = rd.get(n), rs.get(n)
+        if a is None or b_ is None or (a['kind'], a['min'], a['max']) != (b_['kind'], b_['min'], b_['max']):
+            key = 'idl routine %s' % n
+            report['diffs'].append(dict(kind='idl-sources', binding='idl', name=n, file='idl/libxrlidl.dlm' if a else 'idl/xraylib_idl.c', line=(a or b_)['line'], found=a['text'] if a else 'not declared in idl/libxrlidl.dlm',
+                                        expected=b_['text'] if b_ else 'not registered in idl/xraylib_idl.c', key=key,
+                                        what='idl/libxrlidl.dlm has %s; idl/xraylib_idl.c registers %s' % (a['text'] if a else 'nothing', b_['text'] if b_ else 'nothing'), known=key in fkeys))
+    # ---- record layouts
+    for lang in ('fortran', 'pascal', 'cython'):
+        ci = lang in CASE_INSENSITIVE
+        for st in bstructs[lang]:
+            c = cst[st.cname]
+            def same(a, b): return a.upper() == b.upper() if ci else a == b
+            if lang == 'cython':
+                ok = all(any(same(n, cn) and agree(t, ct) for cn, ct in c.fields) for n, t in st.fields)
+            else:
+                ok = len(st.fields) == len(c.fields) and all(same(n, cn) and agree(t, ct) for (n, t), (cn, ct) in zip(st.fields, c.fields))
+            if not ok:
+                key = '%s struct %s' % (st.file, st.name)
+                report['diffs'].append(dict(kind='struct', binding=lang, name=st.name, file=st.file, line=st.line, found=st.show(), expected='%s %s (%s:%d)' % (c.name, c.show(), c.file, c.line), key=key,
+                                            what='%s:%d declares the record %s as %s; the C struct %s is %s' % (st.file, st.line, st.name, st.show(), c.name, c.show()), known=key in fkeys))
+    # ---- build definition of the library; libtool triple; SWIG -includeall
+    if bdef['meson'] != bdef['automake']:
+        for f in sorted(set(bdef['meson']) ^ set(bdef['automake'])):
+            key = 'build-sources %s' % f
+            w_ = 'src/meson.build' if f in bdef['meson'] else 'src/Makefile.am'
+            report['diffs'].append(dict(kind='build-sources', binding='libxrl', name=f, file=w_, line=0, found='only %s lists %s as a source of libxrl' % (w_, f), expected='both build definitions list the same sources', key=key,
+                                        what='%s lists %s as a source of libxrl, the other build definition does not' % (w_, f), known=key in fkeys))
+    mcfg = re.search(r'^#define XRL_EXTERN (.*)$', open(os.path.join(bdir, 'config.h')).read(), flags=re.M)
+    if not mcfg: raise TieError('config.h', 0, '', 'the config.h this check built with does not define XRL_EXTERN')
+    facts = [('src/meson.build builds libxrl with gnu_symbol_visibility hidden', bdef['visibility_hidden']['meson']),
+             ('src/Makefile.am builds libxrl with -fvisibility=hidden', bool(bdef['visibility_hidden']['automake'])),
+             ('meson.build defines XRL_EXTERN as this check does', mcfg.group(1).strip() in bdef['extern_meson']),
+             ('configure.ac defines XRL_EXTERN as this check does', mcfg.group(1).strip() in bdef['extern_autoconf'])]
+    for t_, ok in facts:
+        if not ok: raise TieError('meson.build', 0, t_, 'the library this check links is not built as the repository builds it')
+    if built is not None and built != bdef['meson']:
+        raise TieError('src/meson.build', 0, ' '.join(sorted(set(built) ^ set(bdef['meson']))), 'the library this check linked was not built from the sources src/meson.build lists')
+    ref = libtool[0]
+    for t_ in libtool[1:]:
+        if (t_['current'], t_['revision'], t_['age']) != (ref['current'], ref['revision'], ref['age']):
+            key = 'libtool-version %s' % t_['file']
+            report['diffs'].append(dict(kind='libtool-version', binding='build files', name=t_['file'], file=t_['file'], line=t_['line'], found=t_['text'], expected='%s (%s:%d)' % (ref['text'], ref['file'], ref['line']), key=key,
+                                        what='%s:%d states the libtool version %s, %s:%d states %s' % (t_['file'], t_['line'], t_['text'], ref['file'], ref['line'], ref['text']), known=key in fkeys))
+    for ln, text, num in pu['soname']:
+        if num != ref['current'] - ref['age']:
+            key = 'soname pascal/xraylib.pas:%d' % ln
+            report['diffs'].append(dict(kind='libtool-version', binding='pascal', name='External_library', file='pascal/xraylib.pas', line=ln, found=text, expected='library major number %d = current - age of %s' % (ref['current'] - ref['age'], ref['file']), key=key,
+                                        what='pascal/xraylib.pas:%d loads %s, the build files produce major number %d' % (ln, text, ref['current'] - ref['age']), known=key in fkeys))
+    pub_h = X.public_headers(repo)
+    swig_unincluded = sorted(h for h in pub_h if h not in swig['includes'])
+    for iv in swig_inv:
+        if not iv['flag'] and swig_unincluded:
+            key = '%s swig -includeall' % iv['file']
+            report['diffs'].append(dict(kind='swig-includeall', binding='swig', name=iv['file'], file=iv['file'], line=iv['line'], found=iv['text'], expected='-includeall (src/xraylib.i %%includes only %s; the constants and prototypes of %s are reached only through nested #include)' % (', '.join(swig['includes']), ', '.join(swig_unincluded[:4]) + ' …'), key=key,
+                                        what='%s:%d runs SWIG on src/xraylib.i without -includeall: the declarations of %d public headers are not wrapped' % (iv['file'], iv['line'], len(swig_unincluded)), known=key in fkeys))
     # ---- exported / versions ------------------------------------------------------------------------------
     for n in public_fns:
         if n not in exported:
@@ -242,6 +383,37 @@ def main(bdir, gen_dir, aux, exported_file):
         if len(p) != 3 or not all(x.isdigit() for x in p): raise TieError(v['file'], v['line'], v['version'], 'version is not MAJOR.MINOR.MICRO')
         return '(%d,%s,%s,%s)' % (nat_of(v['file']), p[0], p[1], p[2])
     emit_table(L, 'versions', '(Nat × Int × Int × Int)', vers[1:], vt, 'version statements of the build and packaging files: ' + ' '.join(v['file'] for v in vers[1:]))
+    # ---- tables of the clause audit: wrapper ↔ symbol, visible signatures, IDL routines, records, build definition
+    pair = lambda x: '(%d,%d)' % (nat_of(x[0]), nat_of(x[1]))
+    emit_table(L, 'libc_names', 'Nat', sorted(LIBC, key=nat_of), lambda n: str(nat_of(n)), 'libc functions the bindings bind besides the C API: ' + ' '.join(sorted(LIBC)))
+    for lang, what in (('fortran', 'module procedure of fortran/xraylib_wrap*.F90'), ('pascal', 'procedure defined in the implementation section of pascal/xraylib.pas (+ xraylib_impl.pas)'), ('idl', 'routine registered in idl/xraylib_idl.c, through its glue function IDL_<x>')):
+        w_ = wr[lang]
+        emit_table(L, lang + '_calls', '(Nat × Nat)', w_['calls'], pair, '(%s — in C spelling when it is named after a C function, C symbol bound by a foreign declaration in its scope that its body references)' % what)
+        emit_table(L, lang + '_named', 'Nat', w_['named'], lambda n: str(nat_of(n)), 'those of them that are named after a function of the C table')
+        emit_table(L, lang + '_native', 'Nat', w_['native'], lambda n: str(nat_of(n)), 'named after a C function, written in the binding language without any foreign declaration: ' + ' '.join(w_['native']))
+        if lang != 'idl':
+            emit_table(L, lang + '_direct', '(Nat × Nat)', w_['direct'], pair, '(foreign declaration published under its own name, C symbol it is bound to)')
+    emit_table(L, 'pascal_public', 'P', sorted(pu['public'], key=lambda p_: nat_of(p_.cname)), rP, 'non-external function declarations of the interface section of pascal/xraylib.pas (incl. xraylib_iface.pas), Pascal types')
+    emit_table(L, 'pascal_iface', '(Nat × Nat)', iface, pair, '(name, normalised text) of the declarations of pascal/xraylib_iface.pas')
+    emit_table(L, 'pascal_impl', '(Nat × Nat)', impl, pair, '(name, normalised header text) of the definitions of pascal/xraylib_impl.pas')
+    def rR(e): return '⟨%d,%d,%d,%d⟩' % (nat_of(e['name']), 1 if e['kind'] == 'FUNCTION' else 0, e['min'], e['max'])
+    emit_table(L, 'idl_dlm', 'R', sorted(idlf['dlm'], key=lambda e: nat_of(e['name'])), rR, 'routines declared by idl/libxrlidl.dlm (C spelling of the upper-case IDL name)')
+    emit_table(L, 'idl_sysfun', 'R', sorted(idlf['sysfun'], key=lambda e: nat_of(e['name'])), rR, 'routines registered by the IDL_SYSFUN_DEF2 tables of idl/xraylib_idl.c')
+    def rS(st, up): return '⟨%d,[%s]⟩' % (nat_of(st.cname), ','.join('(%d,%d)' % (nat_of(n.upper() if up else n), X.ty_code(*t)) for n, t in st.fields))
+    cs_sorted = sorted(cst.values(), key=lambda st: nat_of(st.name))
+    emit_table(L, 'struct_c', 'S', cs_sorted, lambda st: rS(st, False), 'structs of the public C headers: ' + ' '.join(st.name for st in cs_sorted))
+    emit_table(L, 'struct_c_uc', 'S', cs_sorted, lambda st: rS(st, True), 'the same with upper-case field names (for the case-insensitive languages)')
+    emit_table(L, 'struct_fortran', 'S', bstructs['fortran'], lambda st: rS(st, True), 'TYPE, BIND(C) of fortran/xraylib_wrap.F90: ' + ' '.join(st.name for st in bstructs['fortran']))
+    emit_table(L, 'struct_pascal', 'S', bstructs['pascal'], lambda st: rS(st, True), 'records of pascal/xraylib.pas: ' + ' '.join(st.name for st in bstructs['pascal']))
+    emit_table(L, 'struct_cython', 'S', bstructs['cython'], lambda st: rS(st, False), 'structs declared by python/xraylib_np_c.pxd: ' + ' '.join(st.name for st in bstructs['cython']))
+    emit_table(L, 'lib_sources_meson', 'Nat', sorted(bdef['meson'], key=nat_of), lambda n: str(nat_of(n)), "C sources of library('xrl', …) in src/meson.build")
+    emit_table(L, 'lib_sources_automake', 'Nat', sorted(bdef['automake'], key=nat_of), lambda n: str(nat_of(n)), 'C sources in libxrl_la_SOURCES + nodist_libxrl_la_SOURCES of src/Makefile.am')
+    emit_table(L, 'lib_sources_built', 'Nat', sorted(built if built is not None else bdef['meson'], key=nat_of), lambda n: str(nat_of(n)), 'C sources the library whose symbols are in `exported` was compiled from')
+    emit_table(L, 'lib_build_facts', '(Nat × Nat)', facts, lambda x: '(%d,%d)' % (nat_of(x[0]), 1 if x[1] else 0), 'visibility / XRL_EXTERN of the two build definitions vs this check\'s build: ' + '; '.join(t_ for t_, _ in facts))
+    emit_table(L, 'libtool_triples', '(Nat × Nat × Nat × Nat)', libtool, lambda t_: '(%d,%d,%d,%d)' % (nat_of(t_['file']), t_['current'], t_['revision'], t_['age']), 'libtool current:revision:age as stated by ' + ' and '.join(t_['file'] for t_ in libtool))
+    emit_table(L, 'soname_refs', '(Nat × Nat)', pu['soname'], lambda x: '(%d,%d)' % (nat_of('pascal/xraylib.pas:%d' % x[0]), x[2]), 'library major numbers hard-coded in External_library strings of pascal/xraylib.pas')
+    emit_table(L, 'swig_invocations', '(Nat × Nat)', swig_inv, lambda iv: '(%d,%d)' % (nat_of(iv['file']), 1 if iv['flag'] else 0), '(build file that runs SWIG on src/xraylib.i, 1 if with -includeall)')
+    emit_table(L, 'swig_unincluded', 'Nat', sorted(swig_unincluded, key=nat_of), lambda n: str(nat_of(n)), 'public headers src/xraylib.i does not %include itself: ' + ' '.join(swig_unincluded))
     for n in ('XRAYLIB_MAJOR', 'XRAYLIB_MINOR', 'XRAYLIB_MICRO'):
         L.append('/-- code of the name %s -/' % n); L.append('def name_%s : Nat := %d' % (n, nat_of(n)))
     L += ['', 'end XrlL4.Gen.C20', '']
@@ -251,8 +423,15 @@ def main(bdir, gen_dir, aux, exported_file):
               bindings={b: [c.js() for _, c in tables[b]] for b in BINDINGS}, publishes=publishes,
               protos={s: [p.js() for p in protos[s]] for s in PROTO_SETS}, swig=swig, cpp=cpp, versions=vers, exported=len(exported),
               java_dynamic=java_dynamic, idl=idl_info, known=known, diffs=report['diffs'], findings=[list(f) for f in findings],
+              wrappers={k: dict(calls=len(v['calls']), named=len(v['named']), native=v['native'], direct=len(v['direct'])) for k, v in wr.items()},
+              structs=dict(c=[st.js() for st in cst.values()], **{k: [st.js() for st in v] for k, v in bstructs.items()}),
+              pascal_public=[p_.js() for p_ in pu['public']], idl_routines=dict(dlm=idlf['dlm'], sysfun=idlf['sysfun'], defined_not_registered=idlf['unregistered']),
+              build=dict(bdef, built=built, facts=[[t_, ok] for t_, ok in facts]), libtool=libtool, soname=[list(x) for x in pu['soname']], swig_invocations=swig_inv, swig_unincluded=swig_unincluded,
               counts=dict(c_constants=len(cc), c_prototypes=len(cp), **{'const_' + b: len(tables[b]) for b in BINDINGS}, **{'proto_' + s: len(protos[s]) for s in PROTO_SETS},
-                          swig_refs=len(swig['refs']), cpp_refs=len(cpp['refs']), versions=len(vers), families={f: len(fam[f]) for f in fam}))
+                          swig_refs=len(swig['refs']), cpp_refs=len(cpp['refs']), versions=len(vers), families={f: len(fam[f]) for f in fam},
+                          **{'calls_' + k: len(v['calls']) + len(v['direct']) for k, v in wr.items()}, **{'struct_' + k: len(v) for k, v in bstructs.items()}, c_structs=len(cst),
+                          pascal_public=len(pu['public']), pascal_iface=len(iface), idl_dlm=len(idlf['dlm']), idl_sysfun=len(idlf['sysfun']), lib_sources=len(bdef['meson']),
+                          libtool=len(libtool) + len(pu['soname']), swig_invocations=len(swig_inv)))
     json.dump(js, open(os.path.join(aux, 'c20.json'), 'w'), indent=0, default=str)
     return 0
 
@@ -264,7 +443,7 @@ def fmt_types(p):
 
 if __name__ == '__main__':
     try:
-        sys.exit(main(*sys.argv[1:5]))
+        sys.exit(main(*sys.argv[1:6]))
     except TieError as e:
         json.dump(dict(file=e.file, line=e.line, text=e.text, why=e.why), open(os.path.join(sys.argv[3], 'c20_tie.json'), 'w'))
         print('TIE %s' % e, file=sys.stderr)
